@@ -14,14 +14,14 @@ Fixpoint pair_up (l : list value) : list (value * value) :=
   | _ => []
   end.
 
-Fixpoint dec (fuel : nat) (l : list Z) : option (value * list Z) :=
+Fixpoint dec (o : map_order) (fuel : nat) (l : list Z) : option (value * list Z) :=
   match fuel with
   | O => None
   | S fuel =>
       let many := fix many (n : nat) (l : list Z) : option (list value * list Z) :=
         match n with
         | O => Some ([], l)
-        | S n => match dec fuel l with
+        | S n => match dec o fuel l with
                  | Some (v, l') => match many n l' with
                                    | Some (vs, l'') => Some (v :: vs, l'')
                                    | None => None
@@ -41,7 +41,7 @@ Fixpoint dec (fuel : nat) (l : list Z) : option (value * list Z) :=
       | 8 :: n :: r => match many (Z.to_nat n) r with Some (vs, r') => Some (VTuple vs, r') | None => None end
       | 9 :: s :: n :: r => match many (Z.to_nat n) r with Some (vs, r') => Some (VIter (match s with 0 => LzUnsized | 1 => LzSized | _ => LzRev end) vs, r') | None => None end
       | 10 :: n :: r => match many (Z.to_nat (2 * n)) r with
-                        | Some (vs, r') => Some (VMap (map_build (pair_up vs)), r')
+                        | Some (vs, r') => Some (VMap (map_build_o o (pair_up vs)), r')
                         | None => None
                         end
       | 11 :: n :: r => Some (VPlain (takeZ n r), skipZ n r)
@@ -101,23 +101,33 @@ Definition run_filter (fid : Z) (rev cs : Z) (count : Z) (attr : option (list Z)
   | 6 => f_min x
   | 7 => f_max x
   | 9 => f_last x
+  | 10 => f_dictsort (negb (count =? 0)) cs rev x
+  | 11 => f_items x
+  | 12 => match attr with
+          | Some key => f_map_attr key (match fill with Some d => d | None => VUndef end) x
+          | None => Err E_MissingArgument
+          end
+  | 13 => f_select false x
+  | 14 => f_select true x
+  | 15 => f_sum x
+  | 16 => f_join (match attr with Some d => d | None => [] end) x
   | _ => bind (f_reverse x) f_reverse
   end.
 
-Definition run (inp : list Z) : list Z :=
+Definition run_o (o : map_order) (inp : list Z) : list Z :=
   let fuel := S (length inp) in
   match inp with
   | 0 :: r =>
-      match dec fuel r with
+      match dec o fuel r with
       | Some (a, r') =>
-          match dec fuel r' with
+          match dec o fuel r' with
           | Some (b, _) =>
               let c := vcmp a b in
-              [b2z (veq a b); c2z c; b2z (hash_eq a b);
+              [b2z (veq_o o a b); c2z c; b2z (hash_eq a b);
                b2z (match c with Lt => true | _ => false end);   (* a < b *)
-               b2z (veq a b);                                     (* a == b *)
-               b2z (veq b a);                                     (* a in [b]: any(|v| &v == value) *)
-               b2z (match c with Eq => true | _ => false end)]    (* {b: 1}[a]: BTreeMap::get *)
+               b2z (veq_o o a b);                                 (* a == b *)
+               b2z (veq_o o b a);                                 (* a in [b]: any(|v| &v == value) *)
+               b2z (match map_get_o o a [(b, VNone)] with Some _ => true | None => false end)]  (* {b: 1}[a] *)
           | None => [9]
           end
       | None => [9]
@@ -128,9 +138,9 @@ Definition run (inp : list Z) : list Z :=
       match r1 with
       | ft :: r2 =>
           match (if ft =? 0 then Some (None, r2)
-                 else match dec fuel r2 with Some (f, r3) => Some (Some f, r3) | None => None end) with
+                 else match dec o fuel r2 with Some (f, r3) => Some (Some f, r3) | None => None end) with
           | Some (fill, r3) =>
-              match dec fuel r3 with
+              match dec o fuel r3 with
               | Some (x, _) => enc_out (run_filter fid rev cs count attr fill x)
               | None => [9]
               end
@@ -142,14 +152,16 @@ Definition run (inp : list Z) : list Z :=
   end.
 
 (* classification of a pair for the check: [known-finding class; nan_free a && nan_free b] *)
-Definition classify (inp : list Z) : list Z :=
+Definition run := run_o Sorted.
+
+Definition classify_o (o : map_order) (inp : list Z) : list Z :=
   let fuel := S (length inp) in
   match inp with
   | 0 :: r =>
-      match dec fuel r with
+      match dec o fuel r with
       | Some (a, r') =>
-          match dec fuel r' with
-          | Some (b, _) => [b2z (cross_kind a b); b2z (nan_free a && nan_free b)]
+          match dec o fuel r' with
+          | Some (b, _) => [b2z (cross_kind a b); b2z (nan_free a && nan_free b); b2z (reordered a b)]
           | None => [9]
           end
       | None => [9]
@@ -157,6 +169,9 @@ Definition classify (inp : list Z) : list Z :=
   | _ => [9]
   end.
 
+Definition classify := classify_o Sorted.
+
 Open Scope string_scope.
 Definition runners : list (string * (list Z -> list Z)) :=
-  [ ("c07", run); ("c07-classify", classify) ].
+  [ ("c07", run); ("c07-classify", classify);
+    ("c07-po", run_o Insertion); ("c07-po-classify", classify_o Insertion) ].
